@@ -302,7 +302,15 @@ class Prop:
                 ops.append({"k": "delitem_s", "s": [6, None, None]})
                 del m[6:]
         return {"prop": ID, "seed": seed,
-                "config": {"vkind": vkind, "init": init, "listeners": listeners},
+                "config": {"vkind": vkind, "init": init, "listeners": listeners,
+                           # a second list next to this one (built alike, from the same
+                           # notifiers= list object, or as a copy): neither hears the other
+                           # extra raw notifiers, one of which unhooks others mid-notification
+                           "unhook": ({"n": 3, "at": cfg_r.randrange(6), "who": cfg_r.randrange(3),
+                                       "victims": cfg_r.sample(range(3), cfg_r.randint(1, 2))}
+                                      if cfg_r.random() < 0.25 else None),
+                           "sibling": cfg_r.choice([None, None, "plain", "shared", "copy", "deepcopy",
+                                                "pickle"])},
                 "ops": ops}
 
     # -------------------------------------------------------------- model
@@ -395,7 +403,12 @@ class Prop:
         CUR["env"] = env
         validator = make_validator(vkind, "validator")
         m = [mval(s, vkind) for s in cfg["init"]]
-        tl = TraitList([raw(s) for s in cfg["init"]], item_validator=validator)
+        shared = [] if cfg.get("sibling") == "shared" else None
+        if shared is not None:
+            tl = TraitList([raw(s) for s in cfg["init"]], item_validator=validator,
+                           notifiers=shared)
+        else:
+            tl = TraitList([raw(s) for s in cfg["init"]], item_validator=validator)
         if list(tl) != m:
             raise Violation("C05.construct", "TraitList(%r) holds %r" % (m, list(tl)), 0)
         recs = []
@@ -413,6 +426,17 @@ class Prop:
                     rec.append((event.object, event.index, event.removed,
                                 event.added, list(event.object)))
                 observe(tl, expression.list_items(), handler)
+        sib = None
+        if cfg.get("sibling"):
+            from ..sibling import Sibling
+            # (the sibling's items are the validated items of the main list: no validation)
+            sib = Sibling(ID, cfg["sibling"], tl,
+                          lambda _n: (TraitList(list(tl), notifiers=shared)
+                                      if shared is not None else TraitList(list(tl))), env)
+        unh = None
+        if cfg.get("unhook"):
+            from ..sibling import Unhookers
+            unh = Unhookers(ID, tl, cfg["unhook"], env)
         kept = []      # (step, removed object, added object, their contents when received)
         for i, op in enumerate(trace["ops"]):
             env.begin_op(i, op)
@@ -429,6 +453,10 @@ class Prop:
                                     "(removed=%r, added=%r) was (removed=%r, added=%r) - its "
                                     "payload aliases the live list" % (step, list(removed),
                                                                         list(added), r0, a0), i)
+            if sib is not None and i % 3 == 2:
+                sib.poke(recs, i)
+            if unh is not None:
+                unh.begin_op(i)
             k = op["k"]
             before = list(m)
             L = len(before)
@@ -438,6 +466,8 @@ class Prop:
             ret, e = sut_list_apply(tl, op)
             cover_list_op(env, op, L)
             env.end_op()
+            if sib is not None:
+                sib.after_main_op(op["k"], i)
             injected = env.fired["raise"] > fired0
             if injected:
                 # the validator callback failed: the model must not move
@@ -490,6 +520,8 @@ class Prop:
             # ---- events
             changed = (m != before)
             shape = None
+            if unh is not None:
+                unh.check(changed, describe(op), i)
             for kind, rec in recs:
                 if changed and len(rec) != 1:
                     raise Violation("C05.event-count",
